@@ -322,6 +322,50 @@ def depth_of(spec):
     return 1 + depth_of(spec[1])
 
 
+def has_list(spec):
+    """The specification contains a list (the only container a user can change after he has handed it
+    to a selector)."""
+    if is_leaf(spec):
+        return False
+    if spec[0] == "or":
+        return True
+    if spec[0] == "and":
+        return any(has_list(c) for c in spec[1])
+    return has_list(spec[1])
+
+
+def edit_spec(spec, edit):
+    """The specification a user's object describes after he has edited EVERY list in it (the items
+    first, then the list itself):  ("append", leaf)  ("insert", leaf) = in front  ("pop",) = drop the
+    last item of a non-empty list  ("replace", leaf) = item 0 of a non-empty list becomes *leaf*.
+    Tuples cannot be edited, the lists inside them can; items that are pre-built selectors stay."""
+    if is_leaf(spec):
+        return spec
+    if spec[0] == "and":
+        return ("and", tuple(edit_spec(c, edit) for c in spec[1]))
+    if spec[0] == "or":
+        items = [edit_spec(c, edit) for c in spec[1]]
+        edit_list(items, edit[0], edit[1] if len(edit) > 1 else None)
+        return ("or", tuple(items))
+    return spec     # a pre-built selector is an item like a leaf: the user has no list of it any more
+
+
+def edit_list(items, op, item):
+    """One edit of one Python list, in place (used for the model's item list and for the user's list)."""
+    if op == "append":
+        items.append(item)
+    elif op == "insert":
+        items.insert(0, item)
+    elif op == "pop":
+        if items:
+            items.pop()
+    elif op == "replace":
+        if items:
+            items[0] = item
+    else:
+        raise ValueError(op)
+
+
 def to_json(spec):
     if isinstance(spec, tuple):
         return [to_json(x) for x in spec]
